@@ -43,6 +43,8 @@ Fixpoint jeqb (a b : jvalue Z) {struct a} : bool :=
 
 Definition opt_eqb {A} (eqb : A -> A -> bool) (a b : option A) : bool :=
   match a, b with Some x, Some y => eqb x y | None, None => true | _, _ => false end.
+Definition cdecl_eqb (a b : cdecl) : bool :=
+  match a, b with DOp x, DOp y => String.eqb x y | DFun x, DFun y => Z.eqb x y | _, _ => false end.
 Definition dir_eqb (a b : direction) : bool :=
   match a, b with Minimize, Minimize => true | Maximize, Maximize => true | _, _ => false end.
 (* Python cannot tell a placeholder from a rebuilt problem by identity: both are "not the supplied object" *)
@@ -53,7 +55,7 @@ Definition origin_eqb (a b : porigin) : bool :=
 Definition problem_eqb (a b : problem) : bool :=
   origin_eqb (p_origin a) (p_origin b) &&
   Nat.eqb (p_nvars a) (p_nvars b) && Nat.eqb (p_nobjs a) (p_nobjs b) && Nat.eqb (p_nconstrs a) (p_nconstrs b) &&
-  list_eqb dir_eqb (p_dirs a) (p_dirs b) && list_eqb String.eqb (p_cons a) (p_cons b).
+  list_eqb dir_eqb (p_dirs a) (p_dirs b) && list_eqb cdecl_eqb (p_cons a) (p_cons b).
 Definition fval_same (a b : js_fval) : bool := opt_eqb xsame a b.
 
 (* ---- literals the driver writes ---- *)
@@ -73,7 +75,8 @@ Record lsol := L19 {
 Record c19case := K19 {
   k_saved : saved Z;                       (* what save_json was handed *)
   k_supplied : option problem;             (* problem= argument of load_json *)
-  k_ctab : list (string * (js_cop * xq));     (* real Constraint(op) -> (operator, threshold) *)
+  k_ctab : list (string * (js_cop * xq));     (* declaration text -> (operator, threshold) of the in-memory Constraint objects *)
+  k_ftab : list (Z * (Z * xq));            (* callable key -> (shape, t) of the driver's test callables (JsonModel.js_shape) *)
   k_file : jvalue Z;                       (* the written file as plain json (no hooks) reads it *)
   k_loaded : list lsol;                    (* what load_json returned *)
   k_oneprob : bool                         (* all loaded solutions share ONE problem object *)
@@ -95,14 +98,15 @@ Fixpoint sols_match (vs : list (pval Z)) (ls : list lsol) : bool :=
   end.
 
 (* the model keeps one problem per load; identity across solutions is the driver's k_oneprob *)
-Definition c19_encoder_ok (k : c19case) : bool := jeqb (encode Z (k_saved k)) (k_file k).
+Definition c19_encoder_ok (k : c19case) : bool :=
+  match encode Z (k_saved k) with Ok j => jeqb j (k_file k) | Err _ => false end.
 Definition c19_decoder_ok (k : c19case) : bool :=
-  match decode Z f64_val (ctab_lookup (k_ctab k)) false (k_supplied k) (k_file k) with
+  match decode Z f64_val (ctab_lookup (k_ctab k)) (ftab_lookup (k_ftab k)) false (k_supplied k) (k_file k) with
   | Ok (_, PList _ vs) => sols_match vs (k_loaded k)
   | _ => false
   end.
 Definition c19_roundtrip_ok (k : c19case) : bool :=
-  match load_json Z f64_val (ctab_lookup (k_ctab k)) Z zid (k_supplied k) (save_json Z Z zid (k_saved k)) with
+  match save_then_load Z f64_val (ctab_lookup (k_ctab k)) (ftab_lookup (k_ftab k)) Z zid zid false (k_supplied k) (k_saved k) with
   | Ok (_, PList _ vs) => sols_match vs (k_loaded k)
   | _ => false
   end.
